@@ -67,6 +67,10 @@ def build_frame(sf, spec):
     return sf.Frame.from_items(zip(spec['columns'], spec['cols']), index=index, name=spec['name'])
 
 
+def _probe_items(label, f, n=3, shared=None):
+    return pf.frame_build_probe(f, n=n, shared=shared)
+
+
 class PoolWorld(WorldBase):
     NAME = 'pool'
 
@@ -156,6 +160,11 @@ class PoolWorld(WorldBase):
               'func': ch.choice(['build_and_probe', 'probe_shared', 'probe_shared']),
               'k': ch.randint(2, 4), 'p': ch.choice([0.02, 0.05, 0.1, 0.3]),
               'grow_ih': ch.randint(0, 3), 'grow_ix': ch.randint(0, 3), 'n': ch.randint(1, 4)}
+        if ch.chance(0.25):
+            n = ch.randint(2, 5)
+            return {'op': 'thread_batch', 'frames': [gen_frame(ch, 'b%d' % i, nr=ch.randint(1, 4), nc=ch.randint(1, 3), numeric=True, hier=False) for i in range(n)],
+                    'k': ch.randint(2, 4), 'p': ch.choice([0.02, 0.05, 0.1, 0.3]), 'grow_ih': ch.randint(0, 3), 'grow_ix': ch.randint(0, 3), 'n': ch.randint(1, 4),
+                    'shared': ch.chance(0.6), 'export': ch.choice(['to_frame', 'items', 'to_bus']), 'via': ch.choice(['apply', 'apply_items', 'attr'])}
         if ch.chance(0.4):
             op['ctype'] = 'frame'
             op['spec'] = gen_frame(ch, 'fr', nr=ch.randint(2, 4), nc=ch.randint(2, 3), hier=False)
@@ -460,6 +469,62 @@ class PoolWorld(WorldBase):
         a, b = self._snap(seq[1]), self._snap(par[1])
         if a != b:
             raise Violation('C18.thread', site, cls, 'result under pre-emptive threads differs from sequential: ' + first_diff(a, b))
+        return 'equal'
+
+    def do_thread_batch(self, op, dec_):
+        '''Batch(max_workers, use_threads=True) under the baton: tasks build containers and read shared caches.'''
+        from sim.baton import Baton, patch_locks, unpatch_locks
+        import static_frame
+        sf = self.sf
+        site = f"Batch.{op['via']}(threads).{op['export']}"
+
+        def run(workers):
+            frames = [build_frame(sf, s) for s in op['frames']]
+            shared = self._shared(op) if op.get('shared') else None
+            kw = {'max_workers': op['k'], 'use_threads': True} if workers else {}
+            b = sf.Batch.from_frames(frames, **kw)
+            if op['via'] == 'apply':
+                b = b.apply(functools.partial(pf.frame_build_probe, n=op.get('n', 3), shared=shared))
+            elif op['via'] == 'apply_items':
+                b = b.apply_items(functools.partial(_probe_items, n=op.get('n', 3), shared=shared))
+            else:
+                b = b.iloc[:1].apply(functools.partial(pf.frame_build_probe, n=op.get('n', 3), shared=shared))
+            if op['export'] == 'to_frame':
+                return b.to_frame()
+            if op['export'] == 'to_bus':
+                return b.to_bus()
+            return list(b.items())
+        self.reset_globals()
+        seq = call(run, False)
+        self.reset_globals()
+        prefixes = (os.path.dirname(os.path.abspath(static_frame.__file__)) + os.sep, os.path.abspath(pf.__file__))
+        baton = Baton(dec_, op.get('p', 0.05), self.stats, prefixes)
+        sim = sx.PoolSim(dec_, self.stats, p_early=0.0, baton=baton)
+        sx.CURRENT['sim'] = sim
+        undo = patch_locks(baton)
+        try:
+            par = call(run, True)
+        finally:
+            unpatch_locks(undo)
+            baton.close()
+            self._done(sim)
+            self.interleavings.add(baton.trace_sig)
+            self.stats['pool:thread-switches'] += baton.switches
+            self.stats['pool:traced-lines'] += baton.lines
+            if baton.switches:
+                self.probe('pre-empted-inside-task')
+        if isinstance(par[1], (HarnessError, Violation)):
+            raise par[1]
+        if baton.error is not None:
+            raise baton.error
+        if seq[0] == 'raise':
+            return 'seq-raise:' + type(seq[1]).__name__
+        cls = 'batch' + ('+shared' if op.get('shared') else '')
+        if par[0] == 'raise':
+            raise Violation('C18.thread', site, cls, f'under pre-emptive threads the Batch raised {type(par[1]).__name__}: {par[1]}')
+        a, b = self._snap(seq[1]), self._snap(par[1])
+        if a != b:
+            raise Violation('C18.thread', site, cls, 'Batch result under pre-emptive threads differs from sequential: ' + first_diff(a, b))
         return 'equal'
 
     # ------------------------------------------------------------------ Batch
